@@ -41,7 +41,7 @@ for _f in sorted(_g.glob(_o.path.join(_o.path.dirname(_o.path.abspath(__file__))
 # ---- GoLite: decision functions regenerated from the Go source on every run (harness/translators/golite) and proved
 # equal to the model's predicates for all arguments (coq/Check/GoLite*.v over coq/gen/GoLiteFuns.v).
 _GL_FILES = {"validate": "Check/GoLiteValidate.v", "submit": "Check/GoLiteSubmit.v", "throttle": "Check/GoLiteThrottle.v",
-             "lazy": "Check/GoLiteLazy.v", "da": "Check/GoLiteDA.v", "admit": "Check/GoLiteAdmit.v", "includer": "Check/GoLiteIncluder.v"}
+             "lazy": "Check/GoLiteLazy.v", "da": "Check/GoLiteDA.v", "admit": "Check/GoLiteAdmit.v", "includer": "Check/GoLiteIncluder.v", "queue": "Check/GoLiteQueue.v"}
 _GOLITE = {
     "C01": [("validate", "execValidate = Types.validate, SignedHeader.ValidateBasic = Types.validate_basic, types.Validate = Types.validate_pair")],
     "C02": [("validate", "execValidate = Types.validate (the validation the syncer applies to every received block)"),
@@ -56,6 +56,8 @@ _GOLITE = {
     "C08": [("throttle", "pendingBase.numPending = Throttle.sub64 (uint64 subtraction with wrap-around), pendingBase.isEmpty")],
     "C09": [("admit", "handlePotentialHeader / handlePotentialData (block/retriever.go) with their effects — result, DA-included mark, includer signal, event sent to sync — = Admission.da_admit, for all genesis data, seen-sets, items and DA heights (blob decoding by class is assumed: C12)"),
             ("da", "types.RetrieveWithHelpers = Proxy.retrieve_helper on every path before the chunked Get loop (GetIDs error classes by message text, nil / empty id list)")],
+    "C10": [("queue", "sequencers/single/queue.go AddBatch / Next / batchKey with their datastore writes (Put before the append, Delete of the head record) and their effect on the queue object = Queue.step_mem, for all queue contents, sequence numbers, bounds and batches (Load, a loop over a datastore query, is not translated)")],
+    "C11": [("queue", "sequencers/single/queue.go AddBatch / Next / batchKey with their datastore writes (Put before the append, Delete of the head record) and their effect on the queue object = Queue.step_mem, for all queue contents, sequence numbers, bounds and batches (Load, a loop over a datastore query, is not translated)")],
     "C16": [("da", "types.SubmitWithHelpers = Proxy.submit_helper on every path; types.RetrieveWithHelpers = Proxy.retrieve_helper on every path before the chunked Get loop")],
     "C17": [("lazy", "getRemainingSleep = Lazy.remaining")],
 }
